@@ -109,8 +109,10 @@ Definition spec_D_tpld2 (N : nat) (b : M2) (c : M4) : M4 := mul44 (symR (tpld4 b
 Definition spec_D_tprd2 (N : nat) (a : M2) (c : M4) : M4 := mul44 (symR (tprd4 a)) c.
 (* J3 = det(dev s), dev s = K : s is linear in s:  d2 J3 / ds2 = K : d2det(dev s) : K *)
 Definition dev2 (s : M2) : M2 := sub2 s (scal2 (trace2 s / 3) Id2).
-Definition K4s : M4 := sub4 IdS4 (scal4 (/ 3) IxI4).
-Definition spec_A_dev_d2det (N : nat) (s : M2) : M4 := mul44 (mul44 K4s (symL (symR (d2det4 (dev2 s))))) K4s.
+(* K : a = a - I (x) (I : a) / 3  and  a : K = a - (a : I) (x) I / 3   (K = Is - IxI/3, the deviatoric projector) *)
+Definition devL (a : M4) : M4 := fun i j k l => a i j k l - delta i j * sum3 (fun m => a m m k l) / 3.
+Definition devR (a : M4) : M4 := fun i j k l => a i j k l - sum3 (fun m => a i j m m) * delta k l / 3.
+Definition spec_A_dev_d2det (N : nat) (s : M2) : M4 := devL (devR (symL (symR (d2det4 (dev2 s))))).
 Definition spec_A_pull_back (N : nat) (c : M4) (F : M2) : M4 := pf4 (inv2 F) c.
 (* buildFromFortranMatrix reads a column-major 3x3 matrix *)
 Definition spec_t_fromFortran (N : nat) (m : M2) : M2 := tr2 m.
